@@ -298,6 +298,74 @@ def rule_R8(text, args, fired):
     fired.append('R8:' + anchor)
     return text
 
+def rule_R8s(text, args, fired):
+    """`for V in (A..B).step_by(K) { BODY }` -> `let mut V = A; let v_end_V = B; while V < v_end_V { BODY V += K; }`
+    (std: a stepped range yields A, A+K, .. while < B; BODY contains no `continue`, checked).
+    `for _ in ..` gets the counter name v_cnt.  args = [anchor = `for V in (A..B).step_by(K)`]"""
+    anchor = args[0]
+    toks = _tok_code(text)
+    atoks = [t.text for t in _tok_code(anchor)]
+    hits = [i for i in range(len(toks) - len(atoks) + 1) if [t.text for t in toks[i:i+len(atoks)]] == atoks]
+    k_occ = int(args[1]) if len(args) > 1 else 1
+    if len(hits) < k_occ:
+        raise ExtractError('R8s anchor %r matched %d times' % (anchor, len(hits)))
+    i = hits[k_occ - 1]
+    var = toks[i+1].text
+    name = var if var != '_' else 'v_cnt%d' % k_occ
+    # ( A .. B ) . step_by ( K )
+    j = i + 3
+    if toks[j].text != '(': raise ExtractError('R8s: expected a parenthesised range')
+    c = match_close(toks, j)
+    inner = toks[j+1:c]
+    dd = [x for x in range(len(inner)) if inner[x].text == '..']
+    if len(dd) != 1: raise ExtractError('R8s: range')
+    A = text[inner[0].start:inner[dd[0]-1].end]
+    B = text[inner[dd[0]+1].start:inner[-1].end]
+    if [t.text for t in toks[c+1:c+4]] != ['.', 'step_by', '(']: raise ExtractError('R8s: step_by')
+    c2 = match_close(toks, c + 3)
+    K = text[toks[c+4].start:toks[c2-1].end]
+    bo = c2 + 1
+    if toks[bo].text != '{': raise ExtractError('R8s: body')
+    bc = match_close(toks, bo)
+    if any(t.text == 'continue' for t in toks[bo:bc]): raise ExtractError('R8s: body has continue')
+    head = 'let mut %s: usize = %s; let v_end_%s: usize = %s; while %s < v_end_%s ' % (name, A, name, B, name, name)
+    text = text[:toks[i].start] + head + text[toks[bo].start:toks[bc].start] + ' %s += %s; ' % (name, K) + text[toks[bc].start:]
+    fired.append('R8s:' + anchor)
+    return text
+
+def rule_R8e(text, args, fired):
+    """`for (I, E) in X.iter().enumerate() { BODY }` -> index loop `let v_it = &X; let mut v_i = 0; while v_i < v_it.len()
+    { let I = v_i; let E = &v_it[v_i]; v_i += 1; BODY }`;  `for E in &X { BODY }` likewise without I.  args = [anchor]"""
+    anchor = args[0]
+    toks = _tok_code(text)
+    atoks = [t.text for t in _tok_code(anchor)]
+    hits = [i for i in range(len(toks) - len(atoks) + 1) if [t.text for t in toks[i:i+len(atoks)]] == atoks]
+    if len(hits) != 1: raise ExtractError('R8e anchor %r matched %d times' % (anchor, len(hits)))
+    i = hits[0]
+    k = i + 1
+    while toks[k].text != 'in': k += 1
+    pat = text[toks[i+1].start:toks[k-1].end].strip()
+    j = k + 1
+    while j < len(toks):
+        if toks[j].text in ('(', '['): j = match_close(toks, j) + 1; continue
+        if toks[j].text == '{': break
+        j += 1
+    expr = text[toks[k+1].start:toks[j-1].end].strip()
+    if expr.endswith('.iter().enumerate()'):
+        base = expr[:-len('.iter().enumerate()')]
+        m = re.match(r'\(\s*(\w+)\s*,\s*(\w+)\s*\)', pat)
+        if not m: raise ExtractError('R8e: pattern')
+        binds = 'let %s = v_i; let %s = &v_it[v_i];' % (m.group(1), m.group(2))
+    elif expr.startswith('&'):
+        base = expr[1:]
+        binds = 'let %s = &v_it[v_i];' % pat
+    else:
+        raise ExtractError('R8e: unsupported iterator expression ' + expr)
+    head = 'let v_it = &%s; let mut v_i: usize = 0; while v_i < v_it.len() ' % base
+    text = text[:toks[i].start] + head + '{ %s v_i += 1; ' % binds + text[toks[j].end:]
+    fired.append('R8e:' + anchor)
+    return text
+
 def rule_R6(text, args, fired):
     """closure parameters |_| -> |_e|, |&k| -> |k|"""
     def f(toks, i, src):
@@ -449,7 +517,7 @@ def rule_R17lit(text, args, fired):
     return text
 
 AUTO_RULES = [('R13', rule_R13), ('R1', rule_R1), ('R2', rule_R2), ('R3', rule_R3), ('R6', rule_R6), ('R7', rule_R7), ('R12', rule_R12)]
-ARG_RULES = {'R4': rule_R4, 'R5': rule_R5, 'R5i': rule_R5i, 'R10': rule_R10, 'R15': rule_R15, 'A6': rule_A6, 'R8': rule_R8}
+ARG_RULES = {'R4': rule_R4, 'R5': rule_R5, 'R5i': rule_R5i, 'R10': rule_R10, 'R15': rule_R15, 'A6': rule_A6, 'R8': rule_R8, 'R8s': rule_R8s, 'R8e': rule_R8e}
 
 # ---------------------------------------------------------------- function assembly
 
